@@ -6,6 +6,7 @@ import QlibcModel.Props.C06
 #print axioms Qlibc.Props.C06.remove_by_idx_refines
 #print axioms Qlibc.Props.C06.clear_refines
 #print axioms Qlibc.Props.C06.counters_exact
+#print axioms Qlibc.Props.C06.widths_suffice
 #print axioms Qlibc.Props.C06.walk_complete
 #print axioms Qlibc.Props.C06.history_refines
 #print axioms Qlibc.Shapes.Harr.widths_as_modelled
